@@ -3,7 +3,7 @@
 From Coq Require Import Ascii String ZArith List Bool.
 Import ListNotations.
 From Coq Require Import PrimFloat.
-Require Import PyBase Solver SolverF FText FTextFacts FWrapFacts FSem FSemFacts FSolve FSolveFacts FSolveSim FSolveRun FSolveEdge FPassFacts FSolveAll FPassSolve FortranF FortranExamples.
+Require Import PyBase Solver SolverF FText FTextFacts FWrapFacts FSem FSemFacts FBenignFacts FSolve FSolveFacts FSolveSim FSolveRun FSolveEdge FEvalEdge FPassFacts FSolveAll FSolveAllG FPassSolve FortranF FortranExamples.
 Open Scope Z_scope.
 
 (* ================================================================== text of build_fortran_definition *)
@@ -119,6 +119,22 @@ Section C07.
   Proof. exact (literal_free_agree num add sub mul div neg absf ltb is_nan is_inf of_int fexp flog fpow round4 exp4 log4 pow4
                   zero one neg_mul neg_div catch rdp rdf e). Qed.
 
+  (* THE SAME WITH LITERALS — the common subset stated explicitly (FBenignFacts.benign): every literal is an integer
+     literal that fits INTEGER(4) or a decimal literal exactly representable in binary32, and is an immediate operand of
+     + - * / whose other operand is a REAL(8) expression.  There "numeric constants denote the same double-precision real
+     numbers in both".  (Outside: the refutations below.)  All later theorems are stated for programs of this class. *)
+  Theorem C07_benign_expressions_agree catch (rdp : nat -> Z -> option num) (rdf : nat -> Z -> num) (e : expr num) :
+    benign num e ->
+    (forall i k, In (i, k) (reads num e) -> rdp i k = Some (rdf i k)) ->
+    mm_det rdf e ->
+    (catch = false \/ quiet rdf e) ->
+    py_eval catch rdp e = inl (PF (lf_sem rdf e)) /\ f_eval rdf (f_regroup num e) = Some (F8 (lf_sem rdf e)).
+  Proof. exact (benign_agree num add sub mul div neg absf ltb is_nan is_inf of_int fexp flog fpow round4 exp4 log4 pow4
+                  zero one neg_mul neg_div catch rdp rdf e). Qed.
+
+  Theorem C07_literal_free_is_benign (e : expr num) : literal_free num e = true -> benign num e.
+  Proof. exact (literal_free_benign num e). Qed.
+
   (* one evaluation pass: `self._X[t+k]` and `solved_values(number of X, index+k)` denote the same cell for either spelling
      of t, and statement by statement both engines store the same value: the whole store after the pass is the same *)
   Theorem C07_pass_agree catch n m lg ld t p (prog : list (eqn num)) (v : vals num) :
@@ -140,6 +156,15 @@ Section C07.
     py_pass false prog n t (vals_of s) = (f_pass prog (Z.of_nat p + 1) (vals_of s), None).
   Proof. exact (evaluate_engines_agree num add sub mul div neg absf ltb is_nan is_inf of_int fexp flog fpow round4 exp4 log4 pow4
                   zero one neg_mul neg_div prog fm lg ld t s p n m). Qed.
+
+  (* _evaluate(t) with t outside the span in both spellings: IndexError from both engines, nothing stored *)
+  Theorem C07_evaluate_out_of_span (evf : Z -> vals num -> vals num) (prog : list (eqn num)) fm t s n m i e r :
+    shape n m (vals_of s) -> length (status s) = n -> (0 < m)%nat ->
+    prog = (i, e) :: r -> benign num e ->
+    py_pos n t = None ->
+    w_evaluate num evf fm t s = (s, Raise IndexError) /\
+    py_pass false prog n t (vals_of s) = (vals_of s, Some tag_index).
+  Proof. exact (evaluate_out_of_span num add sub mul div neg absf ltb is_nan is_inf of_int fexp flog fpow evf prog fm t s n m i e r). Qed.
 
   (* FortranEngine.solve_t over ANY equations block `evf` refines BaseModel.solve_t whose evaluation oracle is that block:
      same return value / exception class, values, statuses, iteration counts — for every option of the lattice with
@@ -181,7 +206,7 @@ Section C07.
   Proof. exact (w_solve_t_refines_run num sub absf ltb isfin zero evf ev before after fm d o t s p n m). Qed.
 
   (* END TO END, solve_t: the engine compiled from `prog` and the class generated from `prog` agree on return value /
-     exception class, values, statuses and iteration counts: literal-free program inside the declared lags / leads,
+     exception class, values, statuses and iteration counts: program of benign expressions (prog_scoped) inside the declared lags / leads,
      variable numbers = rows + 1, feasible period, max_iter >= 1, in-span offset, and (FPassFacts.run_ok_prog) along the passes
      that run: benign max / min, no numpy warning when warnings are errors, finite check / endogenous values *)
   Theorem C07_solve_t_engines_agree (prog : list (eqn num)) fm d o t s p n m :
@@ -217,6 +242,25 @@ Section C07.
               (py_solve num sub absf ltb isfin zero ev (no_hook num) (no_hook num) d o ps s).
   Proof. intros H1 H2 H3 H4 H5 H6 H7 H8 H9 H10 H11 H12.
          exact (w_solve_refines num sub absf ltb isfin zero evf ev fm d o n m ec fc fl H1 H2 H3 H4 H5 H6 H7 H8 H9 H10 H11 H12 ps s). Qed.
+
+  (* the same beyond the finite regime (FSolveAllG.solve_okG): every period the solve REACHES either runs finite passes
+     ('.' / 'F'), or lies in the regime of C07_wrapper_refines_python_solve_t ('.', 'F', 'S' under errors='skip', 'E' +
+     SolutionError under errors='raise'), or starts from non-finite check values under errors='raise' (SolutionError, no
+     status), or has an offset that leaves the span under errors='raise' (IndexError); nothing is asked of periods after the
+     one at which both engines stop *)
+  Theorem C07_wrapper_refines_python_solve_all_statuses (evf : Z -> vals num -> vals num) (ev : hook num) fm d o n m ec fc fl ps s :
+    (0 < m)%nat -> rows_ok m (check d) -> rows_ok m (endo d) ->
+    fm_endo fm = endo_nums d -> fm_lags fm = Z.of_nat (lags d) -> fm_leads fm = Z.of_nat (leads d) ->
+    0 < max_iter o -> min_iter o <= max_iter o ->
+    (forall idx v, shape n m v -> shape n m (evf idx v)) ->
+    w_ec (errors o) = Some ec -> w_fc fl = Some fc ->
+    fail_raise o = match fl with FRaise => true | _ => false end ->
+    shape n m (vals_of s) -> length (status s) = n ->
+    solve_okG num sub absf ltb isfin zero evf ev fm d o n ec ps (vals_of s) ->
+    agree num (w_solve num sub absf ltb isfin zero evf fm d o fl ps s)
+              (py_solve num sub absf ltb isfin zero ev (no_hook num) (no_hook num) d o ps s).
+  Proof. intros H1 H2 H3 H4 H5 H6 H7 H8 H9 H10 H11 H12.
+         exact (w_solve_refinesG num sub absf ltb isfin zero evf ev fm d o n m ec fc fl H1 H2 H3 H4 H5 H6 H7 H8 H9 H10 H11 H12 ps s). Qed.
 
   (* END TO END, solve: the engine compiled from `prog` and the class generated from `prog` *)
   Theorem C07_solve_engines_agree (prog : list (eqn num)) fm d o n m ec fc fl ps s :
@@ -289,12 +333,16 @@ Section C07.
   Proof. exact (max_iter_zero_differs num sub absf ltb isfin zero evf ev before after fm d o t s p n m). Qed.
 End C07.
 Print Assumptions C07_literal_free_expressions_agree.
+Print Assumptions C07_benign_expressions_agree.
+Print Assumptions C07_literal_free_is_benign.
 Print Assumptions C07_pass_agree.
 Print Assumptions C07_evaluate_engines_agree.
+Print Assumptions C07_evaluate_out_of_span.
 Print Assumptions C07_wrapper_refines_python_solve_t.
 Print Assumptions C07_wrapper_refines_python_solve_t_run.
 Print Assumptions C07_solve_t_engines_agree.
 Print Assumptions C07_wrapper_refines_python_solve.
+Print Assumptions C07_wrapper_refines_python_solve_all_statuses.
 Print Assumptions C07_solve_engines_agree.
 Print Assumptions C07_both_reject_min_gt_max.
 Print Assumptions C07_both_reject_offset_out_of_span.
